@@ -415,6 +415,193 @@ def grow_abs_bool(g):
 
 
 # ----------------------------------------------------------------------------------------------------------------------
+# integer-range-sensitive compositions: nutils infers integer bounds for every int expression and uses them to simplify
+# minimum / maximum / mod / index normalisation; a too narrow inferred range gives silently wrong values.  The operands are
+# integer constants (and element indices) of one sign class, combined through scattering operations (stack, concatenate,
+# choose: their zero-filled positions matter) and arithmetic, then consumed by a range-sensitive operation whose other
+# operand sits at the edge of the true range.
+
+SIGN_CLASSES = ('neg', 'pos', 'mixed', 'nonneg', 'nonpos')
+INT_COMBINERS = ('stack', 'concatenate', 'choose', 'add', 'subtract', 'multiply', 'negative', 'none', 'stack+take', 'concatenate+sum', 'broadcast_to', 'absolute')
+INT_CONSUMERS = ('minimum', 'maximum', 'clip', 'mod', 'floor_divide', 'greater', 'less', 'equal', 'take_index', 'getitem_index', 'sign', 'power_exponent',
+                 'choose_selector', 'where_like')
+
+
+def _int_values(rng, cls, shape):
+    lo, hi = {'neg': (-6, -1), 'pos': (1, 6), 'mixed': (-4, 4), 'nonneg': (0, 4), 'nonpos': (-4, 0)}[cls]
+    return rng.integers(lo, hi + 1, size=shape)
+
+
+def generate_intrange(envname, rng, res, combiner=None, consumer=None):
+    case = Case(envname, res)
+    g = Gen(case, rng)
+    res_count = res.count
+    cls = str(rng.choice(SIGN_CLASSES, p=[.35, .2, .2, .125, .125]))
+    combiner = combiner or str(rng.choice(INT_COMBINERS))
+    consumer = consumer or str(rng.choice(INT_CONSUMERS))
+    if combiner == 'choose' and consumer in ('take_index', 'getitem_index', 'power_exponent', 'choose_selector'):
+        combiner = 'stack'      # nutils infers no range for a choose result: not usable where a provable range is demanded
+    shape = [(), (2,), (3,), (2, 2), (1, 3)][int(rng.integers(5))]
+    if combiner.startswith('concatenate') and shape == ():
+        shape = (2,)
+
+    def part(shape, cls):
+        # an integer constant of the sign class, or (with a topology) an element-index expression of that class
+        r = rng.random()
+        topo = [n for n in sorted(case.env.leaves) if n.endswith('.findex') or n.endswith('.ivec')]
+        if topo and r < .3:
+            name = str(rng.choice(topo))
+            t = case.add_leaf(dict(leaf='topo', name=name))
+            if cls in ('neg', 'nonpos', 'mixed'):
+                k = g.fresh('i', (), values=numpy.array(int(rng.integers(2, 7)) if cls != 'mixed' else 1), leafkinds=('raw', 'const'))
+                t2 = g.try_op('subtract', 'operator', [t.id, k.id], {})
+                if t2 is not None:
+                    t = t2
+            elif cls == 'pos':
+                k = g.fresh('i', (), values=numpy.array(1), leafkinds=('raw', 'const'))
+                t = g.try_op('add', 'operator', [t.id, k.id], {}) or t
+            if tuple(t.shape) != tuple(shape):
+                try:
+                    numpy.broadcast_shapes(t.shape, shape)
+                    if len(shape) >= len(t.shape) and numpy.broadcast_shapes(t.shape, shape) == tuple(shape):
+                        t = g.try_op('broadcast_to', 'func', [t.id], dict(shape=list(shape))) or t
+                except ValueError:
+                    pass
+            if tuple(t.shape) == tuple(shape):
+                return t
+        return g.fresh('i', shape, values=_int_values(rng, cls, shape), leafkinds=('const', 'const', 'raw'))
+
+    def cls2():
+        return cls if rng.random() < .75 else str(rng.choice(SIGN_CLASSES))
+
+    a = part(shape, cls)
+    x = a
+    if combiner in ('stack', 'stack+take'):
+        parts = [a] + [part(shape, cls2()) for _ in range(int(rng.integers(1, 3)))]
+        x = g.try_op('stack', 'func', [p.id for p in parts], dict(axis=int(rng.integers(-len(shape) - 1, len(shape) + 1))))
+        if x is not None and combiner == 'stack+take':
+            nd = len(x.shape)
+            ax = int(rng.integers(nd))
+            x = g.try_op('take', 'func', [x.id], dict(axis=ax, const=dict(k='i', s=[], d=[int(rng.integers(-x.shape[ax], x.shape[ax]))]), style='int')) or x
+    elif combiner in ('concatenate', 'concatenate+sum'):
+        parts = [a]
+        for _ in range(int(rng.integers(1, 3))):
+            sh = (int(rng.integers(1, 4)),) + tuple(shape[1:])
+            parts.append(part(sh, cls2()))
+        order = rng.permutation(len(parts))
+        x = g.try_op('concatenate', 'func', [parts[i].id for i in order], dict(axis=0))
+        if x is not None and combiner == 'concatenate+sum' and len(x.shape) >= 1:
+            x = g.try_op('sum', 'func', [x.id], dict(axis=int(rng.integers(len(x.shape))))) or x
+    elif combiner == 'choose':
+        k = int(rng.integers(2, 4))
+        sel = g.index_node(k, shape=None, nonneg=True, pointdep_ok=True)
+        if sel is not None:
+            parts = [a] + [part(shape, cls2()) for _ in range(k - 1)]
+            try:
+                numpy.broadcast_shapes(sel.shape, shape)
+                x = g.try_op('choose', 'func', [sel.id] + [p.id for p in parts], {})
+            except ValueError:
+                x = a
+    elif combiner in ('add', 'subtract', 'multiply'):
+        b = part(g.compatible_shape(shape) if rng.random() < .5 else shape, cls2())
+        x = g.try_op(combiner, str(rng.choice(['ufunc', 'operator'])), [a.id, b.id], {})
+    elif combiner in ('negative', 'absolute'):
+        x = g.try_op(combiner, 'ufunc', [a.id], {})
+    elif combiner == 'broadcast_to':
+        x = g.try_op('broadcast_to', 'func', [a.id], dict(shape=[int(rng.integers(1, 4))] + list(shape)))
+    if x is None:
+        x = a
+    if x.f is None:      # a raw constant: make it a function array
+        x = g.try_op('positive', 'ufunc', [x.id], {}) or x
+        if x.f is None:
+            prune(case.prog)
+            return case
+    vals = x.vals
+    lo, hi = int(vals.min()), int(vals.max())
+    edge = lambda: int(rng.choice([lo - 1, lo, lo + 1, hi - 1, hi, hi + 1, 0, (lo + hi) // 2]))
+
+    def const(v, shape=()):
+        v = numpy.asarray(v)
+        return g.fresh('i', v.shape, values=v, leafkinds=('raw', 'const', 'pyscalar') if v.ndim == 0 else ('raw', 'const'))
+
+    def thresholds():
+        if rng.random() < .6:
+            return const(edge())
+        sh = g.compatible_shape(x.shape)
+        return const(numpy.array([edge() for _ in range(int(numpy.prod(sh, dtype=int)))]).reshape(sh))
+
+    form = lambda: str(rng.choice(['ufunc', 'operator']))
+    swap = lambda ids: ids[::-1] if rng.random() < .5 else ids
+    node = None
+    if consumer in ('minimum', 'maximum'):
+        node = g.try_op(consumer, 'ufunc', swap([x.id, thresholds().id]), {})
+    elif consumer == 'clip':
+        a_, b_ = sorted([edge(), edge()])
+        m = g.try_op('maximum', 'ufunc', swap([x.id, const(a_).id]), {})
+        node = g.try_op('minimum', 'ufunc', swap([m.id, const(b_).id]), {}) if m is not None else None
+    elif consumer in ('mod', 'floor_divide'):
+        d = int(rng.choice([hi + 1, hi, hi + 2, 2, 3, max(1, -lo), max(1, -lo) + 1, -2, -3]))
+        if d == 0:
+            d = 2
+        if rng.random() < .25:
+            node = g.try_op(consumer, form(), [const(edge() or 1).id, x.id], {})      # the range-carrying array as divisor (zero entries: out of domain)
+        if node is None:
+            node = g.try_op(consumer, form(), [x.id, const(d).id], {})
+    elif consumer in ('greater', 'less', 'equal'):
+        node = g.try_op(consumer, form(), swap([x.id, thresholds().id]), {})
+    elif consumer == 'sign':
+        node = g.try_op('sign', 'ufunc', [x.id], {})
+    elif consumer == 'power_exponent' and lo >= 0 and hi <= 4 and x.pointindep:
+        base = const(_int_values(rng, 'mixed', g.compatible_shape(x.shape)))
+        node = g.try_op('power', form(), [base.id, x.id], {})
+    elif consumer in ('take_index', 'getitem_index') and x.pointindep and len(x.shape) <= 2:
+        # long enough for any range that nutils may infer by summing the ranges of scattered terms
+        # (scattered terms are summed, and a scatter through a non-constant index multiplies the range by the number of entries)
+        S = sum(int(numpy.abs(n.vals).max()) for n in case.nodes.values() if n.kind == 'i' and n.vals is not None and n.vals.size) + 2
+        n = min(2 * S * 9 + 2, 700)
+        arr = g.fresh('i', (n,), values=rng.integers(-3, 4, size=n), leafkinds=('const', 'arg'))
+        if consumer == 'take_index':
+            node = g.try_op('take', 'func', [arr.id, x.id], dict(axis=0, fnindex=True))
+        else:
+            node = g.try_op('getitem', 'getitem', [arr.id, x.id], dict(items=[{'r': 1}], bare=True))
+    elif consumer == 'choose_selector' and lo >= 0 and hi <= 3:
+        choices = [g.fresh(str(rng.choice(['i', 'f'])), g.compatible_shape(x.shape)) for _ in range(hi + 1)]
+        try:
+            numpy.broadcast_shapes(x.shape, *(c.shape for c in choices))
+            node = g.try_op('choose', 'func', [x.id] + [c.id for c in choices], {})
+        except ValueError:
+            node = None
+    elif consumer == 'where_like':
+        # numpy.choose(x > t, [a, x]): a where built from a comparison of the range-carrying array
+        cnd = g.try_op('greater', form(), [x.id, thresholds().id], {})
+        if cnd is not None:
+            cnd = g.try_op('multiply', 'ufunc', [cnd.id, const(1).id], {})     # selector as int (a bool selector is not supported by evaluable.Choose)
+        if cnd is not None:
+            other = const(edge())
+            try:
+                node = g.try_op('choose', 'func', [cnd.id, other.id, x.id] if rng.random() < .5 else [cnd.id, x.id, other.id], {})
+            except Exception:
+                node = None
+    if node is None:
+        # fall back to the consumers that always apply
+        node = g.try_op(str(rng.choice(['minimum', 'maximum'])), 'ufunc', swap([x.id, thresholds().id]), {})
+    # one more range-sensitive step on top (the inferred range of the first result feeds the second simplification)
+    if node is not None and node.kind == 'i' and rng.random() < .5:
+        v = node.vals
+        lo, hi = int(v.min()), int(v.max())
+        op2 = str(rng.choice(['minimum', 'maximum', 'mod']))
+        if op2 == 'mod':
+            g.try_op('mod', form(), [node.id, const(int(rng.choice([hi + 1, max(hi, 1), 2, 3]))).id], {})
+        else:
+            g.try_op(op2, 'ufunc', swap([node.id, const(edge()).id]), {})
+    res_count(f'intrange/combiner/{combiner}')
+    res_count(f'intrange/consumer/{consumer}')
+    res_count(f'intrange/class/{cls}')
+    prune(case.prog)
+    return case
+
+
+# ----------------------------------------------------------------------------------------------------------------------
 # replay: rebuild a case from its program
 
 def execute(prog, res):
